@@ -370,19 +370,10 @@ func (p *Parser) parseOperand() (Node, error) {
 
 	for p.tokenIndex < len(p.tokens) && p.tokens[p.tokenIndex].Type == TOKEN_PUNCTUATION {
 		if p.tokens[p.tokenIndex].Value == "[" {
-			line := p.tokens[p.tokenIndex].Line
-			p.tokenIndex++
-			indexExpr, err := p.parseExpression()
+			expr, err = p.parseSubscript(expr)
 			if err != nil {
 				return nil, err
 			}
-			if p.tokenIndex >= len(p.tokens) ||
-				p.tokens[p.tokenIndex].Type != TOKEN_PUNCTUATION ||
-				p.tokens[p.tokenIndex].Value != "]" {
-				return nil, fmt.Errorf("expected closing bracket after array index at line %d", line)
-			}
-			p.tokenIndex++
-			expr = NewGetItemNode(expr, indexExpr, line)
 		} else if p.tokens[p.tokenIndex].Value == "|" {
 			expr, err = p.parseFilters(expr)
 			if err != nil {
@@ -393,6 +384,23 @@ func (p *Parser) parseOperand() (Node, error) {
 		}
 	}
 	return expr, nil
+}
+
+// parseSubscript parses one [index] behind expr; the current token is the "["
+func (p *Parser) parseSubscript(expr Node) (Node, error) {
+	line := p.tokens[p.tokenIndex].Line
+	p.tokenIndex++
+	indexExpr, err := p.parseExpression()
+	if err != nil {
+		return nil, err
+	}
+	if p.tokenIndex >= len(p.tokens) ||
+		p.tokens[p.tokenIndex].Type != TOKEN_PUNCTUATION ||
+		p.tokens[p.tokenIndex].Value != "]" {
+		return nil, fmt.Errorf("expected closing bracket after array index at line %d", line)
+	}
+	p.tokenIndex++
+	return NewGetItemNode(expr, indexExpr, line), nil
 }
 
 // peekBinaryOperator returns the binary operator at the current position and
@@ -554,6 +562,15 @@ func (p *Parser) parseSimpleExpression() (Node, error) {
 		operand, err := p.parseSimpleExpression()
 		if err != nil {
 			return nil, err
+		}
+
+		// A subscript binds tighter than a prefix operator, as attribute access
+		// does: -xs[1] is -(xs[1]), not (-xs)[1]
+		for p.tokenIndex < len(p.tokens) && p.tokens[p.tokenIndex].Type == TOKEN_PUNCTUATION && p.tokens[p.tokenIndex].Value == "[" {
+			operand, err = p.parseSubscript(operand)
+			if err != nil {
+				return nil, err
+			}
 		}
 
 		// Create a unary node
